@@ -1017,6 +1017,17 @@ func (n *N) assignCounts(list []ast.Stmt) map[types.Object]int {
 				} else if o := n.Info.Uses[y]; o != nil {
 					cnt[o]++
 				}
+			case *ast.SelectorExpr:
+				// x.f = …: the field object counts (whatever x is: aliases are not tracked)
+				if sel := n.Info.Selections[y]; sel != nil && sel.Kind() == types.FieldVal {
+					cnt[sel.Obj()]++
+				}
+			case *ast.IndexExpr:
+				e = y.X // x.f[i] = …: x.f changes as far as readers of it are concerned
+				continue
+			case *ast.StarExpr:
+				e = y.X
+				continue
 			}
 			return
 		}
@@ -1080,6 +1091,13 @@ func (n *N) pure(e ast.Expr, cnt map[types.Object]int) bool {
 		switch y := m.(type) {
 		case *ast.FuncLit:
 			ok = false
+		case *ast.SelectorExpr:
+			// a field the body itself assigns (p.off = …, p.off++) is not stable: i := p.off; p.off = i+1; use(i)
+			if sel := n.Info.Selections[y]; sel != nil && sel.Kind() == types.FieldVal {
+				if cnt[sel.Obj()] > 0 {
+					ok = false
+				}
+			}
 		case *ast.CallExpr:
 			if tv, isT := n.Info.Types[y.Fun]; isT && tv.IsType() {
 				return true
